@@ -101,12 +101,28 @@ def specEdit (s : S) (impl : String) : String :=
 
 def eqInt : Int → Int → Bool := fun a b => decide (a = b)
 
+/-- `slice.Rotate(ss, k)` for `0 ≤ k`: the element at `i` moves to `(i + k) % n` -/
+def rotR (l : List Int) (k : Nat) : List Int :=
+  if l.length = 0 then l else
+    let m := l.length - k % l.length
+    l.drop m ++ l.take m
+
 def step (s : S) (toks : List String) (impl : String) : S × String × String :=
   match toks with
   | ["reset"] => ({}, "ok", "-")
   | ["reset", l, r] => ({ lhs := parseCsv l, rhs := parseCsv r }, "ok", "-")
   | "l" :: vs => let s' := { s with lhs := s.lhs ++ parseInts vs }; (s', s!"l={s'.lhs.length}", "-")
   | "r" :: vs => let s' := { s with rhs := s.rhs ++ parseInts vs }; (s', s!"r={s'.rhs.length}", "-")
+  -- `hold`: Go side only (the same backing arrays from now on); `revl` / `rotl k`: the left input permuted in place
+  -- `lcs` inside a C11 history (so that an LCS call can precede an EditScript call on the same held arrays);
+  -- its own verdict belongs to stream C12.lcs
+  | ["lcs"] =>
+    (match lcsFunc? eqInt s.lhs s.rhs with
+     | some r => (s, s!"res={fmtInts r} nil={fmtBool (lcsIsNil s.lhs s.rhs)} mod=F", "-")
+     | none => (s, "panic:index", "-"))
+  | ["hold"] => (s, "ok", "-")
+  | ["revl"] => let s' := { s with lhs := s.lhs.reverse }; (s', s!"l={s'.lhs.length}", "-")
+  | ["rotl", k] => let s' := { s with lhs := rotR s.lhs (k.toNat?.getD 0) }; (s', s!"l={s'.lhs.length}", "-")
   | ["edit"] =>
     let v := specEdit s impl
     match lcsFunc? eqInt s.lhs s.rhs, editScriptFunc? eqInt s.lhs s.rhs with
